@@ -33,18 +33,20 @@ Proof.
 Qed.
 Print Assumptions C02_precedence_table.
 
-(* the emitted code is precedence-correct in PYTHON's grammar and denotes the
-   Python tree that means e — for the arithmetic fragment (no reference
-   operators, arrays, ROW/COLUMN/OFFSET/INDIRECT/SUBTOTAL) and PROVIDED no
-   prefix minus is the left operand of ^.
-   Missing for the full statement: exactly that proviso (the implementation
-   emits a prefix minus bare: refuted in Refuted/C02_emit_neg_pow.v), and the
-   uniqueness of Python's parse (PyWF t -> ast.parse (pyflat t) = pyabs t),
-   which is checked against CPython in the harness, in both directions. *)
-Theorem C02_emit_partial : forall e, arith e -> no_neg_pow_left e ->
-  forall par, PyWF (emit par e) /\ pyabs (emit par e) = translate e.
-Proof. exact emit_partial. Qed.
-Print Assumptions C02_emit_partial.
+(* the emitted code is precedence-correct in PYTHON's grammar (the power operator right-
+   associative and tighter than a unary minus on its left, unary minus tighter
+   than * /, & below + -, comparisons lowest and non-chaining) and denotes the
+   Python tree that means e, in every context — for the arithmetic fragment
+   [arith] (literals, plain references, prefix -, postfix %, the 12 operators,
+   ordinary calls; not: reference operators, arrays, ROW/COLUMN/OFFSET/
+   INDIRECT/SUBTOTAL, which are correspondence-only).  Since the fix db0afb2 a
+   prefix minus below ^ is parenthesised, so no proviso remains.  That a PyWF
+   tree is what CPython's parser returns for its text is checked against
+   ast.parse by the harness (both directions), not proved. *)
+Theorem C02_emit : forall e, arith e ->
+  forall c, PyWF (emit c e) /\ pyabs (emit c e) = translate e.
+Proof. exact emit_correct. Qed.
+Print Assumptions C02_emit.
 
 (* OperatorNode.op_map (generated): ^ -> **, = -> ==, <> -> != *)
 Theorem C02_op_map :
@@ -54,14 +56,12 @@ Theorem C02_op_map :
 Proof. exact op_map_ok. Qed.
 Print Assumptions C02_op_map.
 
-(* a text literal without backslash, line feed, carriage return denotes its
-   characters (any length, any number of quotes, braces, ...).
-   Missing: backslash / newline (refuted in Refuted/C02_literals.v). *)
-Theorem C02_text_partial : forall s,
-  Forall (fun c => c <> 92 /\ c <> 10 /\ c <> 13) s ->
-  py_string_literal (emit_text (excel_quote s)) = Some s.
-Proof. exact text_partial. Qed.
-Print Assumptions C02_text_partial.
+(* every text literal denotes exactly its characters: any length, any
+   characters (quotes, backslashes, line feeds, carriage returns, braces, ...):
+   Python's decoding of the emitted literal returns them (fix db52b98) *)
+Theorem C02_text : forall s, py_string_literal (emit_text (excel_quote s)) = Some s.
+Proof. exact text_correct. Qed.
+Print Assumptions C02_text.
 
 (* an integer literal without superfluous leading zeros is a Python literal of
    the same value.  Missing: leading zeros (refuted), decimals / exponents
